@@ -37,6 +37,18 @@ c771c24+4f1e3aa:C18
 c771c24:C03
 a9cca78:C03
 d8b1973:C03
+6c9bd9d:C16
+6d4d59c:C18
+e4dd127+b46c565:C18
+71b549e:C11
+b2d86c5:C11
+da90b3f:C11
+f66a656:C15
+09c7560:C15
+8f453e5:C08
+e4dd127:C12,C03
+b3305a6:C04,C05
+6a27050:C18
 "
 if [ -n "$(git -C /repo status --porcelain)" ]; then echo "/repo is not clean"; exit 2; fi
 mkdir -p selftest
